@@ -84,6 +84,7 @@ Proof.
   - now apply sim_riscv64.
   - now rewrite Hfmt.
   - now rewrite Hfmt.
+  - rewrite Hfmt. repeat (destruct Hform as [Hf | Hform]; [rewrite Hf; cbn; lia | ]). rewrite Hform; cbn; lia.
   - cbn [af_check af_riscv64]. split; [lia|]. split; [apply Hff|]. split; [lia|exact Htop].
 Qed.
 
@@ -143,6 +144,7 @@ Proof.
   - now apply sim_pfn64.
   - now rewrite Hfmt.
   - now rewrite Hfmt.
+  - rewrite Hfmt. cbn. destruct Hwf as ((_ & H8) & _). exact H8.
 Qed.
 
 Theorem pfn32_refines_arch readmem tgt mask pf va ras root fuel :
@@ -157,4 +159,5 @@ Proof.
   - now apply sim_pfn32.
   - now rewrite Hfmt.
   - now rewrite Hfmt.
+  - rewrite Hfmt. cbn. destruct Hwf as ((_ & H8) & _). exact H8.
 Qed.
